@@ -615,6 +615,23 @@ func TestVerif_C25(t *testing.T) {
 				fmt.Sprintf("node %d (lead=%d sign=%d) receives %s units, node %d (lead=%d sign=%d) receives %s units",
 					i, c.works[i][0], c.works[i][1], recv[i], j, c.works[j][0], c.works[j][1], recv[j]), c.witness(mem, recv))
 		}
+		// and by the combined work the distribution is defined on: lead*120/100 + sign
+		total := func(w [2]uint64) *big.Int {
+			// in 1e-8 units of the fixed-point amounts the kernel computes with: lead*1.2 + sign
+			t := new(big.Int).Mul(new(big.Int).SetUint64(w[0]), big.NewInt(120000000))
+			return t.Add(t, new(big.Int).Mul(new(big.Int).SetUint64(w[1]), big.NewInt(100000000)))
+		}
+	outer:
+		for i := range c.works {
+			for j := range c.works {
+				if i != j && total(c.works[i]).Cmp(total(c.works[j])) >= 0 && recv[i].Cmp(recv[j]) < 0 {
+					r.Violation("C25|"+path+"|more combined work receives less|"+vC25WorkClass(c, i, j),
+						fmt.Sprintf("node %d (lead=%d sign=%d, combined %s) receives %s units, node %d (lead=%d sign=%d, combined %s) receives %s units",
+							i, c.works[i][0], c.works[i][1], total(c.works[i]), recv[i], j, c.works[j][0], c.works[j][1], total(c.works[j]), recv[j]), c.witness(mem, recv))
+					break outer
+				}
+			}
+		}
 		return kernelSum
 	}
 
